@@ -78,6 +78,10 @@ def run(ctx):
     for cfg in ("MCHotColdBadWrite.cfg", "MCHotColdBadRemove.cfg"):
         r = vlib.tlc("MCHotCold.tla", cfg, workers=1, timeout=300, metadir=os.path.join(ctx.out, "mc-bad"))
         ctx.negative_control(r.violated == "HotComplete", "model %s must violate HotComplete" % cfg)
+    # the warm-up protocol of restore / repack / repair-index against a cold store that forgets warm-ups between commands
+    vlib.mc(ctx, "WarmUp.tla", "MCWarmUp.cfg", workers=2, timeout=300)
+    r = vlib.tlc("WarmUp.tla", "MCWarmUpFirst.cfg", workers=1, timeout=300, metadir=os.path.join(ctx.out, "mc-bad"))
+    ctx.negative_control(r.violated == "WarmBeforeRead", "model: a warm-up list decided by each pack's first blob must violate WarmBeforeRead")
     if not q:
         # unbounded in the number of operations: HotComplete + the promise of the pending half-operation is inductive (Apalache)
         ok = vlib.apalache_inductive(ctx, "HotColdInd", subst={"WriteHotFirst \\in BOOLEAN /\\ RemoveColdFirst \\in BOOLEAN": "WriteHotFirst = TRUE /\\ RemoveColdFirst = TRUE"})
